@@ -23,11 +23,13 @@ package drpchttp
 //@   ensures [identity] (forall k int :: 0 <= k && k < len(s) ==> s[k] != '%') ==> result1 == nil && result0 == s
 
 //@ func buildContext
+//@   modifies maps
 //@   props C14 C13
 //@   requires ctx != nil
 //@   loop 1 invariant [e] entries == entries0 && ctx != nil && -1 <= rangeindex && rangeindex < len(entries)
 
 //@ func Context
+//@   modifies maps
 //@   props C13
 //@   requires req != nil
 
